@@ -310,10 +310,31 @@ def r2(ctx):
         ga = guard_atoms(mcfg, mcfg.node_containing(addc[0]))
         ok = all(("%s.is_none()" % g, False) in ga for g in ("gt_mother", "gt_father", "gt_child")) and ("mendelian_conflict(gt_mother, gt_father, gt_child)", True) in ga
     ctx.ob(mc.qual, "conflict-iff-all-present-and-conflicting", ok, mc.loc(), "an index is a conflict exactly when all three genotypes are present and mendelian_conflict(mother, father, child) holds" if ok else "conflict detection guard changed")
-    defs = {k: util.single_def(mc.node, k) for k in ("genotypes_mother", "genotypes_father", "genotypes_child")}
-    ok = all(v is not None for v in defs.values()) and u(defs["genotypes_mother"]).endswith("(trio.mother)") and u(defs["genotypes_father"]).endswith("(trio.father)") and u(defs["genotypes_child"]).endswith("(trio.child)")
-    z = [n for n in walk_function(mc.node) if isinstance(n, ast.For) and "zip(genotypes_mother, genotypes_father, genotypes_child)" in u(n.iter)]
-    ok = ok and len(z) == 1 and [u(t) for t in z[0].target.elts[1].elts] == ["gt_mother", "gt_father", "gt_child"]
+    # the loop that walks the three genotype columns in parallel: zip(A, B, C) with targets (x, y, z); A, B, C (locals resolved)
+    # are the columns of trio.mother / trio.father / trio.child, and mendelian_conflict is called as (x, y, z) in that order
+    ok = None
+    for n in walk_function(mc.node):
+        if not isinstance(n, ast.For):
+            continue
+        it = n.iter
+        tgt = n.target
+        if isinstance(it, ast.Call) and u(it.func) == "enumerate" and it.args and isinstance(tgt, ast.Tuple) and len(tgt.elts) == 2:
+            it, tgt = it.args[0], tgt.elts[1]
+        it = util.expand_single_defs(mc.node, it)
+        if not (isinstance(it, ast.Call) and u(it.func) == "zip" and len(it.args) == 3 and isinstance(tgt, ast.Tuple) and len(tgt.elts) == 3):
+            continue
+        cols = [u(a_) for a_ in it.args]
+        roles = []
+        for c_ in cols:
+            m_ = [r_ for r_ in ("mother", "father", "child") if c_.endswith(".genotypes_of(trio.%s)" % r_)]
+            roles.append(m_[0] if len(m_) == 1 else None)
+        names_ = [u(t_) for t_ in tgt.elts]
+        calls_ = [c_ for c_ in ast.walk(n) if isinstance(c_, ast.Call) and u(c_.func) == "mendelian_conflict" and len(c_.args) == 3]
+        ok = roles == ["mother", "father", "child"] and len(calls_) == 1 and [u(a_) for a_ in calls_[0].args] == names_
+        if None not in roles and sorted(roles) == ["child", "father", "mother"] and len(calls_) == 1 and not ok:
+            # another column order is fine as long as each column reaches the parameter of its role
+            by_role = dict(zip(roles, names_))
+            ok = [u(a_) for a_ in calls_[0].args] == [by_role["mother"], by_role["father"], by_role["child"]]
     ctx.ob(mc.qual, "roles-of-the-three-genotypes", ok, mc.loc(), "the three genotype columns are those of trio.mother / trio.father / trio.child in the order mendelian_conflict expects" if ok else "genotype columns are not bound to the trio's roles in order")
     pc = ctx.func("whatshap.pedigree.mendelian_conflict")
     ok = util.params_of(pc.node) == ["genotypem", "genotypef", "genotypec"]
